@@ -8,6 +8,9 @@
 (* printed when every stream is finished or the schedule is long enough.   *)
 (* tools/props/c14.py concretises the sizes and hands the schedules to     *)
 (* harness/drive_h2flow, whose ledger is validated by Trace_H2Flow.        *)
+(* A "wu" record carries the window it finds (w): c14.py weights the       *)
+(* schedules by class (an update that lifts a NEGATIVE window above zero   *)
+(* in one step, three SETTINGS frames on one connection).                  *)
 (***************************************************************************)
 EXTENDS MC_H2Flow, Json
 
@@ -31,7 +34,7 @@ GenNext ==
         \/ \E s \in Ids, b \in Bodies, u \in Ups :
              Peer_Open(s, b, u) /\ Rec([op |-> "open", sid |-> s, b |-> b, u |-> u])
         \/ \E x \in Ids \cup {0}, n \in Grants :
-             Peer_WindowUpdate(x, n) /\ Rec([op |-> "wu", sid |-> x, n |-> n])
+             Peer_WindowUpdate(x, n) /\ Rec([op |-> "wu", sid |-> x, n |-> n, w |-> IF x = 0 THEN connWin ELSE strWin[x]])
         \/ (\E s \in Ids, u \in Ups : Peer_Respond(s, u)) /\ UNCHANGED <<hist, emitted>>
         \/ (\E s \in Ids, n \in 0..MaxWin, es \in BOOLEAN : Peer_SendData(s, n, es)) /\ UNCHANGED <<hist, emitted>>
         \/ SozuNext /\ Sync
